@@ -240,6 +240,41 @@ func propC18(c *Ctx) {
 		if !carriesLock(f.Type(), 0) {
 			continue // plain data published once under the lock may be returned; lockable shared objects may not
 		}
+		// (c) copying lock-bearing elements out of guarded storage gives every
+		// copy its own mutex while the copies keep sharing what the elements
+		// point to (transactions, logs): the lock no longer guards the data
+		for _, fn := range w.RepoFuncs() {
+			nc := 0
+			for _, ci := range callsIn(fn) {
+				var src ssa.Value
+				switch calleeName(ci) {
+				case "slices.Clone", "slices.Clip":
+					if calleeName(ci) == "slices.Clone" && len(ci.Common().Args) == 1 {
+						src = ci.Common().Args[0]
+					}
+				case "builtin copy":
+					src = ci.Common().Args[1]
+				case "builtin append":
+					if len(ci.Common().Args) == 2 {
+						src = ci.Common().Args[1]
+					}
+				}
+				if src == nil {
+					continue
+				}
+				v := stripConv(src)
+				for d := 0; d < 3; d++ {
+					if sl, ok := v.(*ssa.Slice); ok {
+						v = stripConv(sl.X)
+					}
+				}
+				if isLoadOfField(v, f) {
+					nc++
+					c.Violation("R18.4", fmt.Sprintf("%s/copy-of-%s.%s#%d", fnName(fn), row.typ, row.field, nc), instrPos(ci),
+						fmt.Sprintf("%s copies the lock-bearing elements of %s.%s: every copy gets its own mutex but still shares the element's transactions and logs with the original", fnName(fn), row.typ, row.field))
+				}
+			}
+		}
 		for _, fn := range w.RepoFuncs() {
 			n := 0
 			for _, r := range returnsOf(fn) {
@@ -355,84 +390,117 @@ func propC18Captured(c *Ctx, res *Resolver, isJoin func(ssa.Instruction) bool) {
 			}
 			cl := mc.Fn.(*ssa.Function)
 			n++
-			ls := Locksets(cl, nil)
-			ord := 0
-			allInstrs(cl, func(x ssa.Instruction) {
-				st, ok := x.(*ssa.Store)
-				if !ok {
-					return
+			// the goroutine's code = its closure plus the function literals of the
+			// spawner that it calls (a `collect := func(…)` helper): their writes to
+			// captured variables are the goroutine's writes
+			type unit struct {
+				f        *ssa.Function
+				bindings []ssa.Value
+			}
+			units := []unit{{cl, mc.Bindings}}
+			for _, cc := range callsIn(cl) {
+				h := regionCallee(cc)
+				if h == nil || h == cl || h.Parent() != fn || len(h.FreeVars) == 0 {
+					continue
 				}
-				fv, ok := st.Addr.(*ssa.FreeVar)
-				if !ok {
-					return
+				var hb []ssa.Value
+				allInstrs(fn, func(y ssa.Instruction) {
+					if m2, ok := y.(*ssa.MakeClosure); ok && m2.Fn == ssa.Value(h) {
+						hb = m2.Bindings
+					}
+				})
+				dup := false
+				for _, u := range units {
+					if u.f == h {
+						dup = true
+					}
 				}
-				ord++
-				key := fmt.Sprintf("%s/store-to-%s#%d", fnName(cl), fv.Name(), ord)
-				if len(ls[st]) > 0 {
-					// every other access of this captured variable in the closure must hold one of those locks too
-					var unlocked []string
-					for _, ref := range *fv.Referrers() {
-						if ref == ssa.Instruction(st) {
-							continue
-						}
-						switch ref.(type) {
-						case *ssa.UnOp, *ssa.Store:
-						default:
-							continue
-						}
-						common := false
-						for k := range ls[st] {
-							if ls[ref][k] {
-								common = true
+				if hb != nil && !dup {
+					units = append(units, unit{h, hb})
+				}
+			}
+			for _, un := range units {
+				cl := un.f
+				bindings := un.bindings
+				ls := Locksets(cl, nil)
+				ord := 0
+				allInstrs(cl, func(x ssa.Instruction) {
+					st, ok := x.(*ssa.Store)
+					if !ok {
+						return
+					}
+					fv, ok := st.Addr.(*ssa.FreeVar)
+					if !ok {
+						return
+					}
+					ord++
+					key := fmt.Sprintf("%s/store-to-%s#%d", fnName(cl), fv.Name(), ord)
+					if len(ls[st]) > 0 {
+						// every other access of this captured variable in the closure must hold one of those locks too
+						var unlocked []string
+						for _, ref := range *fv.Referrers() {
+							if ref == ssa.Instruction(st) {
+								continue
+							}
+							switch ref.(type) {
+							case *ssa.UnOp, *ssa.Store:
+							default:
+								continue
+							}
+							common := false
+							for k := range ls[st] {
+								if ls[ref][k] {
+									common = true
+								}
+							}
+							if !common {
+								unlocked = append(unlocked, w.Pos(instrPos(ref)))
 							}
 						}
-						if !common {
-							unlocked = append(unlocked, w.Pos(instrPos(ref)))
+						c.Check("R18.2", key, st.Pos(), len(unlocked) == 0, "write to captured `"+fv.Name()+"` under "+stateString(ls[st])+"; accesses of the same variable in this goroutine outside that lock: "+fmt.Sprint(unlocked))
+						return
+					}
+					// the cell in the spawner
+					var cell ssa.Value
+					for i, f := range cl.FreeVars {
+						if f == fv {
+							cell = bindings[i]
 						}
 					}
-					c.Check("R18.2", key, st.Pos(), len(unlocked) == 0, "write to captured `"+fv.Name()+"` under "+stateString(ls[st])+"; accesses of the same variable in this goroutine outside that lock: "+fmt.Sprint(unlocked))
-					return
-				}
-				// the cell in the spawner
-				var cell ssa.Value
-				for i, f := range cl.FreeVars {
-					if f == fv {
-						cell = mc.Bindings[i]
-					}
-				}
-				multi := inLoop(in)
-				// spawner accesses between spawn and join
-				conc := false
-				if cell != nil {
-					for _, ref := range *cell.Referrers() {
-						if ref == ssa.Instruction(mc) || ref.Parent() != fn {
-							continue
-						}
-						if _, isMC := ref.(*ssa.MakeClosure); isMC {
-							continue
-						}
-						if _, dbg := ref.(*ssa.DebugRef); dbg {
-							continue
-						}
-						r, _ := reach(siteOf(in), isInstr(ref), &Cuts{Edges: map[Edge]bool{}, Instrs: joinInstrs(fn, isJoin)})
-						if r {
-							// re-reaching the MakeClosure's own binding loads in the loop does not count
-							conc = true
+					multi := inLoop(in)
+					// spawner accesses between spawn and join
+					conc := false
+					if cell != nil {
+						for _, ref := range *cell.Referrers() {
+							if ref == ssa.Instruction(mc) || ref.Parent() != fn {
+								continue
+							}
+							if _, isMC := ref.(*ssa.MakeClosure); isMC {
+								continue
+							}
+							if _, dbg := ref.(*ssa.DebugRef); dbg {
+								continue
+							}
+							r, _ := reach(siteOf(in), isInstr(ref), &Cuts{Edges: map[Edge]bool{}, Instrs: joinInstrs(fn, isJoin)})
+							if r {
+								// re-reaching the MakeClosure's own binding loads in the loop does not count
+								conc = true
+							}
 						}
 					}
-				}
-				if !multi && !conc {
-					c.OK("R18.2", key, st.Pos(), "single closure instance; the spawner touches `"+fv.Name()+"` only after the join")
-					return
-				}
-				// exception with checked side condition: insert's spawning loop runs exactly once
-				if fnName(fn) == "(*shovel.Task).insert" && multi && !concExceptLoop(fn, cell, in, isJoin) {
-					ok, why := insertSingleIteration(w, res, fn, in, fBatch)
-					c.Check("R18.2", key, st.Pos(), ok, "exception (table): the spawning loop's stride is Task.batchSize and len(blocks) <= delta <= batchSize, so exactly one instance runs; side condition: "+why)
-					return
-				}
-				c.Violation("R18.2", key, st.Pos(), fmt.Sprintf("goroutine closure assigns captured variable `%s` without a lock (several instances: %v; spawner access before join: %v)", fv.Name(), multi, conc))
-			})
+					if !multi && !conc {
+						c.OK("R18.2", key, st.Pos(), "single closure instance; the spawner touches `"+fv.Name()+"` only after the join")
+						return
+					}
+					// exception with checked side condition: insert's spawning loop runs exactly once
+					if fnName(fn) == "(*shovel.Task).insert" && multi && !concExceptLoop(fn, cell, in, isJoin) {
+						ok, why := insertSingleIteration(w, res, fn, in, fBatch)
+						c.Check("R18.2", key, st.Pos(), ok, "exception (table): the spawning loop's stride is Task.batchSize and len(blocks) <= delta <= batchSize, so exactly one instance runs; side condition: "+why)
+						return
+					}
+					c.Violation("R18.2", key, st.Pos(), fmt.Sprintf("goroutine closure assigns captured variable `%s` without a lock (several instances: %v; spawner access before join: %v)", fv.Name(), multi, conc))
+				})
+			}
 		})
 	}
 	c.Stats["spawn_sites"] = n
